@@ -750,6 +750,7 @@ static void e3_exec(void (*run)(void *), void *ctx, const int *prefix, int plen,
     e3.active = 0;
     mc_poll_sanitizers();
     if (st) st->executions++;
+    { int dev = 0; for (int i = 0; i < e3.n; i++) if (e3.choice[i]) dev = 1; if (dev) mc_stat_add("e3_with_deviation", 1); }
 }
 static void e3_rec(void (*run)(void *), void *ctx, const int *prefix, int plen, int kmax, int bound, int exact, mc_e3_stats *st)
 {
